@@ -42,6 +42,15 @@ CORPUS = [
      "kind": "corpus:natsort"},
     {"segs": [0], "groups": [{"id": "g", "members": [0], "includes": ["nope"], "nlex": None}],
      "kind": "corpus:missing-group"},
+    # segment ids beyond 2**53 / 2**63 (exact integers; nothing may pass them through a float or a fixed-width integer)
+    {"segs": [3, 9007199254740993, 9223372036854775808, 9223372036854775809, 9223372036854775810, 7], "kind": "corpus:huge-segment-ids",
+     "groups": [{"id": "far", "members": [9223372036854775809, 9223372036854775808, 9223372036854775809], "includes": [], "nlex": None},
+                {"id": "mix", "members": [9223372036854775810, 3, 9007199254740993, 9223372036854775808, 7, 9223372036854775810],
+                 "includes": ["far", "far"], "nlex": None},
+                {"id": "small", "members": [7, 3, 7], "includes": [], "nlex": None},
+                {"id": "plain", "members": [9223372036854775809, 7, 9223372036854775810, 9223372036854775808, 9007199254740993, 3, 7],
+                 "includes": [], "nlex": None},
+                {"id": "top", "members": [9223372036854775810, 9007199254740993], "includes": ["small", "mix"], "nlex": None}]},
     # two groups hold ONE members list object (ext.members = dend.members); a third one of another cell too
     {"segs": [0, 1, 2, 3], "kind": "corpus:shared-members-list",
      "groups": [{"id": "prox", "members": [1, 2], "includes": [], "nlex": None},
